@@ -2,6 +2,7 @@ import OpcuaModel.Model.JsonIO
 import OpcuaModel.Model.Graph
 import OpcuaModel.Model.Order
 import OpcuaModel.Model.Parse
+import OpcuaModel.Model.Value
 /-! Line-protocol driver: one JSON object per input line → one JSON object per output line.
     It only *evaluates* the model's definitions; it contains no logic of its own beyond decoding. -/
 open Lean Opcua Opcua.IO
@@ -142,7 +143,7 @@ def opOrderEq (j : Json) : Except String Json := do
   | .ok v => return Json.mkObj [("eq", Json.bool v)]
   | .error e => return errJson e
 
-/-! ### parse ops (C01–C04, C18) -/
+/-! ### small JSON helpers -/
 def optStrOf (j : Json) : Option Str :=
   match j with
   | .str s => some (strOf s)
@@ -154,6 +155,102 @@ def pairsOf (j : Json) : Except String (List (Str × Str)) := do
     let q ← p.getArr?
     if q.size != 2 then throw "pair"
     return (strOf (← q[0]!.getStr?), strOf (← q[1]!.getStr?))
+
+def optStrToJson : Option Str → Json
+  | none => Json.null
+  | some s => Json.str (ofStr s)
+
+/-! ### value ops (C08, C10) -/
+open Opcua.Xml (T TS) in
+partial def treeOf (j : Json) : Except String T := do
+  let tag ← getStr j "tag"
+  let attrs ← pairsOf (← j.getObjVal? "attrs")
+  let text := (optStrOf (j.getObjValD "text")).getD []
+  let kids ← (← getArr j "kids").toList.mapM treeOf
+  return .node tag attrs text (kids.foldr (fun t ts => TS.cons t ts) TS.nil)
+
+open Opcua.Xml (T TS) in
+partial def treeToJson : T → Json
+  | .node tag attrs text kids =>
+    let rec ks : TS → List Json
+      | .nil => []
+      | .cons t ts => treeToJson t :: ks ts
+    Json.mkObj [("tag", Json.str (ofStr tag)),
+      ("attrs", Json.arr (attrs.map fun a => Json.arr #[Json.str (ofStr a.1), Json.str (ofStr a.2)]).toArray),
+      ("text", if text = [] then Json.null else Json.str (ofStr text)), ("kids", Json.arr (ks kids).toArray)]
+
+def optIntOf (j : Json) : Option Int :=
+  match j.getInt? with | .ok i => some i | _ => none
+
+def dtOfStr (s : Str) : Except String DT :=
+  match parseDT (s ++ ['Z']) with
+  | some d => .ok d
+  | none => .error "datetime text"
+
+def dtToStr (d : DT) : Str := (padNat 4 d.year) ++ '-' :: padNat 2 d.month ++ '-' :: padNat 2 d.day ++ 'T' :: padNat 2 d.hour ++ ':' ::
+    padNat 2 d.minute ++ ':' :: padNat 2 d.second ++ '.' :: padNat 6 d.micro
+
+partial def valOf (j : Json) : Except String Val := do
+  let t ← (← j.getObjVal? "t").getStr?
+  let v := j.getObjValD "v"
+  match IntKind.ofTag (strOf t) with
+  | some k => return .int k (optIntOf v)
+  | none =>
+    match t with
+    | "Float" => return .flt false (optStrOf v)
+    | "Double" => return .flt true (optStrOf v)
+    | "String" => return .str (optStrOf v)
+    | "Guid" => return .guid (optStrOf v)
+    | "Boolean" => return .bool (match v with | .bool b => some b | _ => none)
+    | "DateTime" => return .dateTime (← dtOfStr (strOf (← v.getStr?)))
+    | "ByteString" => return .byteString (optStrOf v)
+    | "NodeId" => return .nodeId (← nodeIdOfJson v)
+    | "LocalizedText" => return .locText (optStrOf (j.getObjValD "text")) (optStrOf (j.getObjValD "locale"))
+    | "EngineeringUnits" =>
+      let d := j.getObjValD "display"
+      let e := j.getObjValD "description"
+      return .engUnits (← getStr j "uri") (← getInt j "unit_id") (optStrOf (d.getObjValD "text")) (optStrOf (d.getObjValD "locale"))
+        (optStrOf (e.getObjValD "text")) (optStrOf (e.getObjValD "locale"))
+    | "EURange" => return .euRange (← getStr j "low") (← getStr j "high")
+    | "ExtensionObject" => return .extObj (← nodeIdOfJson (← j.getObjVal? "type")) (← treeOf (← j.getObjVal? "tree"))
+    | "XmlElement" => return .xmlElem (← treeOf (← j.getObjVal? "tree"))
+    | "Enumeration" => return .enumeration (optIntOf v) (← getStr j "string") (← getStr j "name")
+    | "ListOf" =>
+      let items ← (← getArr j "items").toList.mapM valOf
+      return .list (← getStr j "typename") (items.foldr (fun x xs => ValS.cons x xs) ValS.nil)
+    | _ => throw s!"unknown value type {t}"
+
+def optIntToJson : Option Int → Json
+  | none => Json.null
+  | some i => Json.num (JsonNumber.fromInt i)
+
+partial def valToJson : Val → Json
+  | .int k v => Json.mkObj [("t", Json.str (ofStr k.tag)), ("v", optIntToJson v)]
+  | .flt dbl v => Json.mkObj [("t", Json.str (if dbl then "Double" else "Float")), ("v", optStrToJson v)]
+  | .str v => Json.mkObj [("t", "String"), ("v", optStrToJson v)]
+  | .guid v => Json.mkObj [("t", "Guid"), ("v", optStrToJson v)]
+  | .bool v => Json.mkObj [("t", "Boolean"), ("v", match v with | none => Json.null | some b => Json.bool b)]
+  | .dateTime d => Json.mkObj [("t", "DateTime"), ("v", Json.str (ofStr (dtToStr d))), ("tz", "utc")]
+  | .byteString v => Json.mkObj [("t", "ByteString"), ("v", optStrToJson v)]
+  | .nodeId n => Json.mkObj [("t", "NodeId"), ("v", nodeIdToJson n)]
+  | .locText t l => Json.mkObj [("t", "LocalizedText"), ("text", optStrToJson t), ("locale", optStrToJson l)]
+  | .engUnits uri unit dT dL eT eL => Json.mkObj [("t", "EngineeringUnits"), ("uri", Json.str (ofStr uri)),
+      ("unit_id", Json.num (JsonNumber.fromInt unit)),
+      ("display", Json.mkObj [("text", optStrToJson dT), ("locale", optStrToJson dL)]),
+      ("description", Json.mkObj [("text", optStrToJson eT), ("locale", optStrToJson eL)])]
+  | .euRange lo hi => Json.mkObj [("t", "EURange"), ("low", Json.str (ofStr lo)), ("high", Json.str (ofStr hi))]
+  | .extObj tid body => Json.mkObj [("t", "ExtensionObject"), ("type", nodeIdToJson tid), ("tree", treeToJson body)]
+  | .xmlElem t => Json.mkObj [("t", "XmlElement"), ("tree", treeToJson t)]
+  | .list tn items =>
+    let rec go : ValS → List Json
+      | .nil => []
+      | .cons v vs => valToJson v :: go vs
+    Json.mkObj [("t", "ListOf"), ("typename", Json.str (ofStr tn)), ("items", Json.arr (go items).toArray)]
+  | .enumeration v s n => Json.mkObj [("t", "Enumeration"), ("v", optIntToJson v), ("string", Json.str (ofStr s)), ("name", Json.str (ofStr n))]
+  | .pyNone => Json.mkObj [("t", "PyNone")]
+
+/-! ### parse ops (C01–C04, C18) -/
+
 
 def reqModelOf (j : Json) : ReqModel :=
   ⟨optStrOf (j.getObjValD "uri"), optStrOf (j.getObjValD "publication_date"), optStrOf (j.getObjValD "version")⟩
@@ -170,7 +267,9 @@ def nodeElemOf (j : Json) : Except String NodeElem := do
   let ds := (← getArr j "description").toList.map optStrOf
   let refs ← (← getArr j "refs").toList.mapM fun r => do
     return (⟨← pairsOf (← r.getObjVal? "attrs"), optStrOf (r.getObjValD "text")⟩ : RefElem)
-  return ⟨cls, attrs, dn, ds, refs⟩
+  let value ← (do
+    if has j "value" then return some (← treeOf (← j.getObjVal? "value")) else return none)
+  return ⟨cls, attrs, dn, ds, refs, value⟩
 
 def docOf (j : Json) : Except String Doc := do
   let uris ← (← getArr j "uris").toList.mapM fun u => do return strOf (← u.getStr?)
@@ -197,15 +296,13 @@ def rowToJson (r : NodeRow) : Json :=
     ("browse_ns", match r.browseNs with | none => Json.null | some i => Json.num (JsonNumber.fromInt i)),
     ("display", Json.str (ofStr r.display)), ("description", Json.str (ofStr r.description)),
     ("dt", optNidToJson r.dataType), ("parent", optNidToJson r.parent), ("md", optNidToJson r.methodDecl),
-    ("attrs", Json.arr (r.attrs.map fun p => Json.arr #[Json.str (ofStr p.1), attrValToJson p.2]).toArray)]
+    ("attrs", Json.arr (r.attrs.map fun p => Json.arr #[Json.str (ofStr p.1), attrValToJson p.2]).toArray),
+    ("value", match r.value with | none => Json.null | some v => valToJson v)]
 
 def optNatToJson : Option Nat → Json
   | none => Json.null
   | some n => Json.num (JsonNumber.fromNat n)
 
-def optStrToJson : Option Str → Json
-  | none => Json.null
-  | some s => Json.str (ofStr s)
 
 def modelToJson (m : ModelElem) : Json :=
   Json.mkObj [("uri", optStrToJson m.uri), ("publication_date", optStrToJson m.publicationDate), ("version", optStrToJson m.version),
@@ -259,6 +356,23 @@ def opNsList (j : Json) : Except String Json := do
     return ((← q[0]!.getNat?), strOf (← q[1]!.getStr?))
   return Json.mkObj [("list", Json.arr ((namespaceListOfDict d).map fun u => Json.str (ofStr u)).toArray)]
 
+def opValueXml (j : Json) : Except String Json := do
+  let v ← valOf (← j.getObjVal? "val")
+  let b ← getBool j "xmlns"
+  return Json.mkObj [("text", Json.str (ofStr (encodeText v b)))]
+
+def opValueDecode (j : Json) : Except String Json := do
+  let t ← treeOf (← j.getObjVal? "elem")
+  match decodeValue t with
+  | .ok v => return Json.mkObj [("val", valToJson v)]
+  | .error e => return errJson e
+
+def opXmlParse (j : Json) : Except String Json := do
+  let s ← getStr j "text"
+  match Xml.parseXml s with
+  | some t => return Json.mkObj [("tree", treeToJson t)]
+  | none => return Json.mkObj [("err", "not-well-formed")]
+
 def dispatch (j : Json) : Except String Json := do
   let op ← (← j.getObjVal? "op").getStr?
   match op with
@@ -276,6 +390,9 @@ def dispatch (j : Json) : Except String Json := do
   | "parse.doc" => opParseDoc j
   | "ns.extend" => opExtendNs j
   | "ns.list" => opNsList j
+  | "value.xml" => opValueXml j
+  | "value.decode" => opValueDecode j
+  | "xml.parse" => opXmlParse j
   | "ping" => return Json.mkObj [("pong", Json.bool true)]
   | _ => throw s!"unknown op {op}"
 
